@@ -68,7 +68,7 @@ PROPS = {
     "C09": {
         "modules": ["TurnModel.Props.C09"],
         "harnesses": ["H1", "H5", "H2", "H8"],
-        "view": ["consume", "frames", "framesb", "cddec", "ischan", "cin", "cnet", "m:junk", "m:unk", "trace"],
+        "view": ["consume", "frames", "framesb", "cddec", "ischan", "cin", "cnet", "m:junk", "m:unk", "m:binding", "state", "trace"],
         "alarms": ["consume-no-progress", "framer-spins", "harness-died", "inbound-blocks", "h5-setup", "attr-get-panics", "intn-argument-wrong", "server-wedged", "client-spins"],
         "rule": "hostile streams through the real framer and codecs (all 2^16 declared lengths, uint16-overflow lengths 0xFFEC-0xFFFF, "
                 "random garbage of every length 0-40; every stream also read with caller buffers of 1-1600 bytes, smaller than some frames); "
